@@ -60,17 +60,35 @@ Definition get_mappings_p (e : engine) (H P : graph) : list mapping :=
           else [])
        else take (e_mm e) (enum (nm_eng e) (em_eng e) H P).
 
+(** cache-free versions of the intermediate values *)
+Definition iso_trace_p (e : engine) (i : nat) (g1 : graph) (j : nat) (g2 : graph) : list N :=
+  let '(a, ga, b, gb) := if n_nodes g2 <? n_nodes g1 then (j, g2, i, g1) else (i, g1, j, g2) in
+  let ok := pre_check_p e gb ga in
+  [N.of_nat b; N.of_nat a; if ok then 1%N else 0%N;
+   if ok then (if n_nodes ga =? n_nodes gb then 1%N else 2%N) else 0%N].
+Definition maps_trace_p (e : engine) (H P : graph) : list N :=
+  let ok := pre_check_p e H P in
+  [if ok then 1%N else 0%N;
+   if ok then (if (n_nodes P =? n_nodes H) && (n_edges P =? n_edges H) then 1%N else 3%N) else 0%N].
+
 Definition step_p (gs : list graph) (es : list engine) (q : query) : tok :=
   match q with
-  | QIso e i j => tbool (isomorphic_p (enth es e) (gnth gs i) (gnth gs j))
+  | QIso e i j => L [tbool (isomorphic_p (enth es e) (gnth gs i) (gnth gs j)); tlist tN (iso_trace_p (enth es e) i (gnth gs i) j (gnth gs j))]
   | QPre e h p => tbool (pre_check_p (enth es e) (gnth gs h) (gnth gs p))
   | QMaps e h p =>
       let l := get_mappings_p (enth es e) (gnth gs h) (gnth gs p) in
-      L [tnat (length l); tset tmapping (if determined (enth es e) (gnth gs h) (gnth gs p) then l else [])]
+      L [tnat (length l); tset tmapping (if determined (enth es e) (gnth gs h) (gnth gs p) then l else []);
+         tlist tN (maps_trace_p (enth es e) (gnth gs h) (gnth gs p))]
   | QSub _ ch pa f ind nc ec names eattr => tbool (sub_iso vf2b f ind nc ec names eattr (gnth gs ch) (gnth gs pa))
   | QGiso i j a b d => tbool (giso vf2b a b d (gnth gs i) (gnth gs j))
   | QGiso0 i j => tbool (giso0 vf2b (gnth gs i) (gnth gs j))
-  | QFgi i j ud fa a b d => tbool (fgi vf2b ud fa a b d (gnth gs i) (gnth gs j))
+  | QFgi i j ud fa a b d =>
+      match fgi_map vf2b enum ud fa a b d (gnth gs i) (gnth gs j) with
+      | Some m => L [tbool true; tnat (length m)]
+      | None => L [tbool false; tnat 0]
+      end
+  | QEntry fn ch pa o => L [tres (sub_entry vf2b fn o (gnth gs ch) (gnth gs pa)); tN (entry_trace fn o (gnth gs ch) (gnth gs pa))]
+  | QCtor r => tctor r
   end.
 
 Lemma pre_check_pure gs e hi pi c : cache_inv gs c ->
@@ -104,13 +122,29 @@ Proof.
   destruct ((n_nodes (gnth gs pi) =? n_nodes (gnth gs hi)) && (n_edges (gnth gs pi) =? n_edges (gnth gs hi))); reflexivity.
 Qed.
 
+Lemma iso_trace_pure gs e i j c : cache_inv gs c ->
+  iso_trace e i (gnth gs i) j (gnth gs j) c = iso_trace_p e i (gnth gs i) j (gnth gs j).
+Proof.
+  intros Hc. unfold iso_trace, iso_trace_p. destruct (n_nodes (gnth gs j) <? n_nodes (gnth gs i)).
+  - destruct (pre_check_pure gs e i j c Hc) as (c' & E & _). rewrite E. reflexivity.
+  - destruct (pre_check_pure gs e j i c Hc) as (c' & E & _). rewrite E. reflexivity.
+Qed.
+
+Lemma maps_trace_pure gs e hi pi c : cache_inv gs c ->
+  maps_trace e hi (gnth gs hi) pi (gnth gs pi) c = maps_trace_p e (gnth gs hi) (gnth gs pi).
+Proof.
+  intros Hc. unfold maps_trace, maps_trace_p. destruct (pre_check_pure gs e hi pi c Hc) as (c' & E & _). rewrite E. reflexivity.
+Qed.
+
 Lemma step_pure gs es q c : cache_inv gs c ->
   exists c', step vf2b enum gs es q c = (step_p gs es q, c') /\ cache_inv gs c'.
 Proof.
-  intros Hc. destruct q as [e i j|e h p|e h p|gm ch pa f ind nc ec names eattr|i j a b d|i j|i j ud fa a b d]; simpl.
-  - destruct (isomorphic_pure gs (enth es e) i j c Hc) as (c' & E & H'). rewrite E. exists c'. auto.
-  - destruct (get_mappings_pure gs (enth es e) h p c Hc) as (c' & E & H'). rewrite E. exists c'. auto.
+  intros Hc. destruct q as [e i j|e h p|e h p|gm ch pa f ind nc ec names eattr|i j a b d|i j|i j ud fa a b d|fn ch pa o|r]; simpl.
+  - destruct (isomorphic_pure gs (enth es e) i j c Hc) as (c' & E & H'). rewrite E, (iso_trace_pure gs (enth es e) i j c Hc). exists c'. auto.
+  - destruct (get_mappings_pure gs (enth es e) h p c Hc) as (c' & E & H'). rewrite E, (maps_trace_pure gs (enth es e) h p c Hc). exists c'. auto.
   - destruct (pre_check_pure gs (enth es e) h p c Hc) as (c' & E & H'). rewrite E. exists c'. auto.
+  - exists c. auto.
+  - exists c. auto.
   - exists c. auto.
   - exists c. auto.
   - exists c. auto.
